@@ -6,8 +6,8 @@ import impl_pyd  # noqa: F401
 from framework import Case
 
 PROP = "C17"
-GENERATED = ['DtypeTables', 'Classes', 'SrcPydantic', 'PydHook', 'Core', 'ShapeLoop']  # generated files this check's tie depends on
-LEAN_MODULES = ["Properties.C17", "Properties.CoreClasses", "Properties.Prov.Pydantic", "Properties.CorePyd", "Properties.Core", "Properties.CoreShape"]
+GENERATED = ['DtypeTables', 'Classes', 'SrcPydantic', 'PydHook', 'Core', 'ShapeLoop', 'Resolve']  # generated files this check's tie depends on
+LEAN_MODULES = ["Properties.C17", "Properties.CoreClasses", "Properties.Prov.Pydantic", "Properties.CorePyd", "Properties.Core", "Properties.CoreShape", "Properties.CoreResolve"]
 RULE = (
     "corpus; seeded models of 1-4 fields (annotated tensor fields over the context dimension alphabet, optional fields, plain int fields; base "
     "types np.ndarray, np.ndarray[Any, np.dtype[..]], npt.NDArray[..], torch.Tensor, jax.Array; validate_assignment on/off), each with 1-3 "
